@@ -5,7 +5,8 @@ Err(Vec<Diagnostic>) constructed anywhere in the product crates must carry a non
 it.  Evidence accepted on a path (forward must-analysis over the MIR, set of vectors known to be non-empty):
   * the false edge of `v.is_empty()`, the true edge of `!v.is_empty()`
   * `v.push(..)`;  `v.extend/append(w)` with w known non-empty;  vec![a, ..] with at least one element
-  * a vector moved out of another Err(Vec<Diagnostic>) (inductive: that one is covered by this same rule)
+  * a vector moved out of another Err(Vec<Diagnostic>) or Err(Vec<&Diagnostic>) (inductive: that one is covered by this same rule)
+  * what `collect()` gathers from a one-to-one adaptor chain (into_iter/iter/cloned/copied/map/rev/enumerate) over a non-empty vector
   * moves/borrows of the above."""
 import re
 from vlib.mir import op_place, loc_str, norm, explore, switch_info, loc_macro
@@ -47,7 +48,7 @@ def analyse(ctx, b, want_ret=False):
     verdict = {}          # (bb, j) -> True if non-empty on all paths seen so far
     def key_of(rt):
         fl = [x for x in rt[1] if isinstance(x, list) and x[0] == "f"]
-        if fl and fl[-1][3] == "core::result::Result" and fl[-1][4] == "Err" and (fl[-1][5] or "").startswith(VEC_DIAG):
+        if fl and fl[-1][3] == "core::result::Result" and fl[-1][4] == "Err" and re.match(r"alloc::vec::Vec<(&('\w+ )?)?ironplc_dsl::diagnostic::Diagnostic", fl[-1][5] or ""):
             return "ERR-PAYLOAD"
         if any(isinstance(x, list) and x[0] == "d" for x in rt[1]):
             return None
@@ -113,6 +114,8 @@ def analyse(ctx, b, want_ret=False):
                         ne.add(d)
                 elif last in ("clone", "to_vec", "into", "from") and recv in ne:
                     ne.add(d)
+                elif last in ("into_iter", "iter", "cloned", "copied", "map", "rev", "enumerate", "peekable", "collect") and recv in ne:
+                    ne.add(d)      # an iterator over a non-empty vector, adapted one-to-one, and what is collected from it
                 elif c.callee and ctx.prog.get(c.callee) and returns_nonempty(ctx, c.callee):
                     ne.add(d)
         ne.add("ERR-PAYLOAD")
